@@ -25,6 +25,8 @@ Round 5 (two changes per property again, other kinds of maintenance work: A a bu
 
 Round 6 (three changes per property, each aimed at a different clause of the property statement - the author was asked to pick the clauses hardest to test - and at a different mechanism among the code anchors; a list of already-tried ideas was to be avoided; 60 written, 59 kept: one C20 change made `--debug` print no traceback, which the property permits): 41 of 59 caught at first contact by their own property's check. One of the others made C13 hang for hours (an arithmetic operation inside one C call, out of reach of the CPU-budget timer); the runner now ends such a worker with a watchdog thread and reports the in-flight case. Two misses were oracle weaknesses rather than generator gaps: an obsolete exclusion left over from finding R discarded every function argument starting with `!` or `(` (C12, also C02/C10), and C15 allowed find_one to raise where the README's definition makes it return the first node. Side remarks gave findings AS (fixed) and AT (open, third-party crash).
 
+Round 7 (two changes per property, any kind of maintenance work, with the list of everything tried before to be avoided - a final measurement after six rounds of widening): 35 of 40 caught at first contact by their own property's check; of the 5 others, 3 were caught by a neighbouring check (C15 for C14's, C18 for C17's, C01/C08 for C15's) and 2 (both C20) by none.
+
 Up to round 5 every miss was a region the generators did not reach, never an oracle that accepted the wrong behaviour (round 6 found the two oracle weaknesses named above); each led to a general widening of a generator, described in the `first contact` column and in DESIGN.md section 6.
 """
 
@@ -41,7 +43,7 @@ for d in sorted(glob.glob("/verif/seeded/*/")):
     if os.path.exists(p):
         metas.append((os.path.basename(d.rstrip("/")), json.load(open(p))))
 missing = []
-for rnd in (1, 2, 3, 4, 5, 6):
+for rnd in (1, 2, 3, 4, 5, 6, 7):
     out.append(f"\n## Round {rnd}\n\n| id | needs, to manifest | first contact | now (quick tier, seed 1) |\n|---|---|---|---|\n")
     for sid, m in metas:
         if m.get("round", 1) != rnd:
